@@ -1669,12 +1669,20 @@ std::ostream& expression_t::print(std::ostream& os, bool old) const
         break;
 
     case MITL_DISJ:
-        get(0).print(os, old) << " || ";
-        get(1).print(os, old);
-        break;
     case MITL_CONJ:
-        get(0).print(os, old) << " && ";
-        get(1).print(os, old);
+        // both operators associate to the left and && binds tighter: parenthesise every nested
+        // disjunction/conjunction except a left operand of the same kind
+        for (uint32_t i = 0; i < 2; ++i) {
+            const auto k = get(i).get_kind();
+            const bool paren = (k == MITL_DISJ || k == MITL_CONJ) && (i == 1 || k != data->kind);
+            if (i == 1)
+                os << (data->kind == MITL_DISJ ? " || " : " && ");
+            if (paren)
+                os << '(';
+            get(i).print(os, old);
+            if (paren)
+                os << ')';
+        }
         break;
     case MITL_ATOM: embrace(os, old, get(0), get_precedence(ARRAY) - 1); break;
     case MITL_NEXT:
